@@ -844,7 +844,10 @@ impl TypedExpr {
                 let x_is_signed = is_signed(&x.ty);
                 let x = x.compile(prg, env, circuit);
                 let y = y.compile(prg, env, circuit);
-                assert_eq!(y.len(), 8);
+                // the shift amount is a u8, or an untyped number bound to a variable (32 bits); only
+                // its 8 lowest bits can be a valid amount, all others make the shift overflow
+                assert!(y.len() >= 8);
+                let y_low = y.len() - 8;
                 let bits = x.len();
                 let bit_to_shift_in = if x_is_signed && op == &Op::ShiftRight {
                     x[0]
@@ -854,7 +857,7 @@ impl TypedExpr {
                 let mut shift = 1;
                 let mut bits_unshifted = x;
                 for layer in (0..8).rev() {
-                    let s = y[layer];
+                    let s = y[y_low + layer];
                     let mut bits_shifted = vec![0; bits];
                     for i in 0..bits {
                         let unshifted = bits_unshifted[i];
@@ -882,7 +885,7 @@ impl TypedExpr {
                     bits => panic!("Unexpected number of bits to be shifted: {bits}"),
                 };
                 let mut overflow = 0;
-                for &w in y[..(8 - max_filled_bits)].iter() {
+                for &w in y[..(y.len() - max_filled_bits)].iter() {
                     overflow = circuit.push_or(overflow, w);
                 }
                 circuit.push_panic_if(overflow, PanicReason::Overflow, meta);
